@@ -356,3 +356,8 @@ CLAIMS["C13"]["note"] += (" At its global limit the address book may drop or ref
 
 CLAIMS["C10"]["text"] += (" Outbound candidates include circuit addresses (<relay IP or DNS name>/<transport>/p2p/<relay>/p2p-circuit, handled by a scripted proxy transport) next to direct ones: while the relay's IP matches an address/subnet rule, the swarm never hands such an address to the relay transport, never admits a connection made through it, and Network.CanDial reports it undialable; InterceptAddrDial refuses it.")
 CLAIMS["C10"]["note"] += (" A circuit address is judged by the relay's IP only as an outbound candidate (the dial opens or re-uses a connection with that IP); as the remote address of an inbound relayed connection no verdict is demanded. The real relay client transport is not driven.")
+
+CLAIMS["C03"]["text"] += (" Scope collection is an operation of the concurrent properties too (hook rcmgr.VerifGC = one pass of the once-a-minute background collection): TestConcurrentBoundsAndQuiescentSum mixes collections into the goroutines' scripts and now accounts the per-peer sub-scopes of protocols and services; "
+    "TestCollectionRacesFirstUse owns the schedule as far as the API allows: after a generated prefix that leaves idle peers with sub-scopes in protocols/services other peers keep alive, a first-use limit lookup (made by the manager under that protocol's/service's lock) is held inside the harness' limiter, a collection is started, a user re-opens streams for the collected peers, then the lookup is released; "
+    "at quiescence every scope incl. the sub-scopes must equal the sum of the streams still open, no sub-scope limit may be exceeded by the holders' own count, and everything reads zero after release.")
+CLAIMS["C03"]["note"] += (" TestCollectionRacesFirstUse runs in real time; which interleaving a case explores is not exactly reproducible (rapid may report 'flaky' for a seeded defect), its verdict does not depend on timing.")
